@@ -324,6 +324,8 @@ def r8(F, rep):
 
 
 def run(F, rep, tier):
+    from .rules_c12 import work_lists
+    work_lists(F, rep, "C08-R9")   # the awake set of this step, not of an earlier one, is what gets computed
     r8(F, rep)
     r1(F, rep)
     r2(F, rep)
